@@ -19,6 +19,7 @@ import DateutilVerif.Proofs.RRuleMonthlyW
 import DateutilVerif.Proofs.RRuleMinutelyBH
 import DateutilVerif.Proofs.RRuleSecondlyBS
 import DateutilVerif.Proofs.RRuleMinutelyBHM
+import DateutilVerif.Proofs.RRuleWeeklyW
 
 namespace RRule
 open Cal
@@ -98,6 +99,11 @@ theorem iter_eq_spec_supported (a : Args) (r : Rule) (h : construct a = .ok r) (
     obtain ⟨wl, hwl, hne, hok⟩ := someWith_elim h4
     exact ⟨n, by omega, by simp [Family.periodsPerTurn],
       iter_eq_spec_monthly_weekno ⟨hf, hi, hv, h3, hz, h1, h2, ⟨wl, hwl, hne, ⟨hok.1, hok.2⟩⟩⟩ h n hr⟩
+  | weeklyWeekno =>
+    obtain ⟨hf, ⟨hi, hv, hz⟩, h1, h2, h3, h4, h5⟩ := hs
+    obtain ⟨wl, hwl, hne, hok⟩ := someWith_elim h2
+    exact ⟨n, by omega, by simp [Family.periodsPerTurn],
+      iter_eq_spec_weekly_weekno ⟨hf, hi, hv, h1, hz, ⟨wl, hwl, hne, ⟨hok.1, hok.2⟩⟩, h3, h4, untilOk_elim h5⟩ h n hr⟩
   | hourly =>
     obtain ⟨hf, ⟨hi, hv, hz⟩, h1, h2, h3, h4, h5⟩ := hs
     exact iter_eq_spec_hourly ⟨hf, hi, hv, wArgOk_elim h1, h2, hz, h3, h4, h5⟩ h n hr
